@@ -73,11 +73,13 @@ type Exec struct {
 	revealed   map[string]bool
 	lemmasUsed map[string]bool
 	topDecr0   *Term
+	specDefs   map[string]*SpecDef
+	fuel       int
 }
 
 func NewExec(p *Program) *Exec {
 	return &Exec{P: p, abstr: map[string]bool{}, libUsed: map[string]bool{}, inlined: map[string]bool{}, trusted: map[string]bool{},
-		usedCtr: map[string]bool{}, maxPaths: 4000, siteIdx: map[*ssa.Function]map[ssa.Instruction]string{}, opaque: map[string]bool{},
+		usedCtr: map[string]bool{}, maxPaths: 4000, siteIdx: map[*ssa.Function]map[ssa.Instruction]string{}, opaque: map[string]bool{"chopRound": true},
 		noPanic: true, overflow: true}
 }
 
@@ -148,7 +150,7 @@ func instrWhat(in ssa.Instruction) string {
 
 func (x *Exec) emit(kind, label string, st *State, goal *Term, note string) *Obligation {
 	o := &Obligation{Name: x.topKey + "/" + kind + "@" + label, Kind: kind, Func: x.topKey, Hyps: append([]*Term(nil), st.PC...), Goal: goal,
-		Axioms: x.axioms, Opaque: x.opaque, Watch: x.watch, Note: note}
+		Axioms: x.axioms, Opaque: x.opaque, Watch: x.watch, Note: note, SpecDefs: x.specDefs, Fuel: x.fuel}
 	x.obs = append(x.obs, o)
 	return o
 }
@@ -770,12 +772,13 @@ func (x *Exec) binop(fr *Frame, st *State, v *ssa.BinOp) {
 		default:
 			r = Mul(a.T, b.T)
 		}
+		r = x.define(st, r, "a")
 		x.rangeCheck(fr, st, v, r, v.Type(), "overflow")
 		fr.regs[v] = intVal(r, v.Type())
 	case token.QUO, token.REM:
 		x.mustNot(fr, st, v, Eq(b.T, Num(0)), "div-by-zero")
 		if v.Op == token.QUO {
-			r := TQuo(a.T, b.T)
+			r := x.define(st, TQuo(a.T, b.T), "q")
 			x.rangeCheck(fr, st, v, r, v.Type(), "overflow-div")
 			fr.regs[v] = intVal(r, v.Type())
 		} else {
